@@ -143,6 +143,19 @@ where
         // for the invalidated value.
         let mut cache_opt = self.cache.write().await;
 
+        // Another fetch may have stored a valid value while we were waiting for the write lock.
+        if matches!(&*cache_opt, Some(cache) if cache.is_valid()) {
+            return Ok(tokio::sync::RwLockReadGuard::map(
+                tokio::sync::RwLockWriteGuard::downgrade(cache_opt),
+                |co| co.as_ref().unwrap(),
+            ));
+        }
+
+        // Drop the invalidated value before waiting for the owner: the owner may be waiting
+        // for exactly this value to be dropped before it can grant a pending write request
+        // and resume answering read requests.
+        *cache_opt = None;
+
         // Request and receive current value.
         let (value_tx, value_rx) = oneshot::channel();
         let _ = self.req_tx.send(ReadRequest { value_tx }).await;
